@@ -540,7 +540,8 @@ fn main() {
         for (k, r) in &responses {
             scan_bytes(r, &secrets, &format!("client-response:{k}"), &mut hits);
         }
-        let fault_in_hist: Vec<String> = hist.iter().filter(|e| faults.contains(e)).map(|e| format!("{:?}", e)).collect();
+        let mut fault_in_hist: Vec<String> = hist.iter().filter(|e| faults.contains(e)).map(|e| format!("{:?}", e)).collect();
+        fault_in_hist.dedup(); // the same one-shot fault twice in a history is one class of history
         for (cls, what) in hits {
             let sig = format!("secret-in:{}:{}", cls, if fault_in_hist.is_empty() { "no-fault".to_string() } else { fault_in_hist.join("+") });
             res.violation(&sig, &format!("a key value issued by the host was found outside the key store: {what}"), case.clone());
